@@ -287,6 +287,17 @@ class TaskDispatcher(object):
             branch_results = all_branch_results.get(branch_id, {})
             if branch_results.get("terminated"):
                 return True
+            """
+            The Branch is also dead if a Map or Parallel state that encloses
+            this one has been terminated, that is only recorded in the results
+            of this (nested) state when the next of its events is handled.
+            """
+            enclosing_id = branch_results.get("parent")
+            while enclosing_id:
+                enclosing_results = all_branch_results.get(enclosing_id, {})
+                if enclosing_results.get("terminated"):
+                    return True
+                enclosing_id = enclosing_results.get("parent")
         return False
 
     def handle_unroutable_rpcmessage(self, message):
